@@ -130,9 +130,7 @@ theorem enterStep_err (f : Faults) (delay : Nat) (s : Step) (env env1 : Env) (ev
     (h : enterStep f delay s env = (ev, .error t, env1)) :
     noSleep ev = uptoFirst (raises f) (beginEvs s) ++ teardown f (uptoFirst (raises f) (beginEvs s))
       ∧ (beginEvs s).any (raises f) = true
-      ∧ some t = lastRaised f (noSleep ev) none
-      ∧ ownCleanup f (uptoFirst (raises f) (beginEvs s)) = teardown f (uptoFirst (raises f) (beginEvs s))
-      ∧ stackTeardown f (uptoFirst (raises f) (beginEvs s)) = [] := by
+      ∧ some t = lastRaised f (noSleep ev) none := by
   obtain ⟨id, k, hd⟩ := s
   cases k
   case power =>
@@ -140,11 +138,11 @@ theorem enterStep_err (f : Faults) (delay : Nat) (s : Step) (env env1 : Env) (ev
     by_cases hc : f (.check id) = true
     · simp only [hc, if_true, Prod.mk.injEq, Except.error.injEq] at h
       obtain ⟨rfl, rfl, rfl⟩ := h
-      simp [beginEvs, uptoFirst, raises, faultTag, hc, teardown, teardownOf, noSleep, isSleep, lastRaised, ownCleanup, stackTeardown]
+      simp [beginEvs, uptoFirst, raises, faultTag, hc, teardown, teardownOf, noSleep, isSleep, lastRaised]
     by_cases hn : f (.refused id) = true
     · simp only [hc, hn, Bool.false_eq_true, if_false, if_true, Prod.mk.injEq, Except.error.injEq] at h
       obtain ⟨rfl, rfl, rfl⟩ := h
-      simp [beginEvs, uptoFirst, raises, faultTag, hc, hn, teardown, teardownOf, noSleep, isSleep, lastRaised, ownCleanup, stackTeardown]
+      simp [beginEvs, uptoFirst, raises, faultTag, hc, hn, teardown, teardownOf, noSleep, isSleep, lastRaised]
     by_cases ho : f (.on id) = true
     · simp only [hc, hn, ho, Bool.false_eq_true, if_false, if_true, Prod.mk.injEq, Except.error.injEq, powerOff] at h
       by_cases hf : f (.off id) = true
@@ -153,27 +151,27 @@ theorem enterStep_err (f : Faults) (delay : Nat) (s : Step) (env env1 : Env) (ev
         have := noSleep_power_evs id (sleepFor delay env) [.off id]
         simp only [List.cons_append, List.append_assoc, List.nil_append] at this ⊢
         rw [this]
-        simp [beginEvs, uptoFirst, raises, faultTag, hc, hn, ho, hf, teardown, teardownOf, noSleep, isSleep, lastRaised, ownCleanup, stackTeardown]
+        simp [beginEvs, uptoFirst, raises, faultTag, hc, hn, ho, hf, teardown, teardownOf, noSleep, isSleep, lastRaised]
       · simp only [hf, Bool.false_eq_true, if_false] at h
         obtain ⟨rfl, rfl, rfl⟩ := h
         have := noSleep_power_evs id (sleepFor delay env) [.off id]
         simp only [List.cons_append, List.append_assoc, List.nil_append] at this ⊢
         rw [this]
-        simp [beginEvs, uptoFirst, raises, faultTag, hc, hn, ho, hf, teardown, teardownOf, noSleep, isSleep, lastRaised, ownCleanup, stackTeardown]
+        simp [beginEvs, uptoFirst, raises, faultTag, hc, hn, ho, hf, teardown, teardownOf, noSleep, isSleep, lastRaised]
     · simp [hc, hn, ho] at h
   case hook =>
     simp only [enterStep] at h
     by_cases hh : f (.hook id) = true
     · simp only [hh, if_true, Prod.mk.injEq, Except.error.injEq] at h
       obtain ⟨rfl, rfl, rfl⟩ := h
-      simp [beginEvs, uptoFirst, noSleep, isSleep, raises, faultTag, hh, teardown, teardownOf, lastRaised, ownCleanup, stackTeardown]
+      simp [beginEvs, uptoFirst, noSleep, isSleep, raises, faultTag, hh, teardown, teardownOf, lastRaised]
     · simp [hh] at h
   all_goals
     simp only [enterStep] at h
     by_cases hh : f (.enter id) = true
     · simp only [hh, if_true, Prod.mk.injEq, Except.error.injEq] at h
       obtain ⟨rfl, rfl, rfl⟩ := h
-      simp [beginEvs, uptoFirst, noSleep, isSleep, raises, faultTag, hh, teardown, teardownOf, lastRaised, ownCleanup, stackTeardown]
+      simp [beginEvs, uptoFirst, noSleep, isSleep, raises, faultTag, hh, teardown, teardownOf, lastRaised]
     · simp [hh] at h
 
 theorem noSleep_frames (cx : List Frame) : noSleep (cx.map Frame.ev) = cx.map Frame.ev := by
@@ -181,64 +179,177 @@ theorem noSleep_frames (cx : List Frame) : noSleep (cx.map Frame.ev) = cx.map Fr
   | nil => rfl
   | cons fr cx ih => cases fr <;> simpa [noSleep, Frame.ev, isSleep] using ih
 
-/-- **Initialisation.**  For every step list, fault assignment, stack and environment: the begin
-    callbacks that run are those of the steps in list order up to and including the first one that
-    raises, followed by the clean-up that one does itself (the power-off of a failing `poweron`);
-    what is registered on the exit stack is exactly the tear-down of the steps that were started;
-    the exception is the last one raised. -/
-theorem enterSteps_split (f : Faults) (delay : Nat) : ∀ (steps : List Step) (cx : List Frame) (env : Env),
-    noSleep (enterSteps f delay steps cx env).1
-        = expectedInit steps f ++ ownCleanup f (expectedInit steps f)
-      ∧ (enterSteps f delay steps cx env).2.2.1.map Frame.ev
-          = stackTeardown f (expectedInit steps f) ++ cx.map Frame.ev
-      ∧ (enterSteps f delay steps cx env).2.1
-          = lastRaised f (expectedInit steps f ++ ownCleanup f (expectedInit steps f)) none
-      ∧ ((enterSteps f delay steps cx env).2.1 = none →
-          (∀ e ∈ expectedInit steps f, raises f e = false))
-      ∧ ((enterSteps f delay steps cx env).2.1 ≠ none →
-          (expectedInit steps f).all (fun e => !raises f e) = false)
-  | [], cx, env => by
-    simp [enterSteps, expectedInit, uptoFirst, noSleep, teardown, lastRaised, ownCleanup, stackTeardown]
-  | s :: rest, cx, env => by
-    unfold enterSteps
+/-- **One unit.**  The context managers of a unit are entered in order; when all come up they are
+    handed (on top of `held`) to the caller; when one raises, the ones entered before it are exited
+    at once, innermost first, and the last exception raised leaves the unit. -/
+theorem enterUnit_spec (f : Faults) (delay : Nat) : ∀ (u : List Step) (held : List Frame) (env : Env),
+    (∀ ev frs env1, enterUnit f delay u held env = (ev, .ok frs, env1) →
+        noSleep ev = u.flatMap beginEvs ∧ (∀ e ∈ u.flatMap beginEvs, raises f e = false)
+        ∧ frs.map Frame.ev = teardown f (u.flatMap beginEvs) ++ held.map Frame.ev)
+    ∧ (∀ ev t env1, enterUnit f delay u held env = (ev, .error t, env1) →
+        noSleep ev = uptoFirst (raises f) (u.flatMap beginEvs)
+            ++ (teardown f (uptoFirst (raises f) (u.flatMap beginEvs)) ++ held.map Frame.ev)
+        ∧ (u.flatMap beginEvs).any (raises f) = true
+        ∧ some t = lastRaised f (noSleep ev) none)
+  | [], held, env => by
+    refine ⟨?_, ?_⟩
+    · intro ev frs env1 h
+      simp only [enterUnit, Prod.mk.injEq, Except.ok.injEq] at h
+      obtain ⟨rfl, rfl, rfl⟩ := h
+      simp [noSleep, teardown]
+    · intro ev t env1 h
+      simp [enterUnit] at h
+  | s :: rest, held, env => by
+    unfold enterUnit
     cases hs : enterStep f delay s env with
+    | mk ev0 R =>
+    obtain ⟨res, env0⟩ := R
+    cases res with
+    | error t0 =>
+      obtain ⟨h1, h2, h3⟩ := enterStep_err f delay s env env0 ev0 t0 hs
+      have hexp : uptoFirst (raises f) ((s :: rest).flatMap beginEvs) = uptoFirst (raises f) (beginEvs s) := by
+        simp only [List.flatMap_cons]
+        exact uptoFirst_append_of_any h2
+      obtain ⟨u1, u2⟩ := unwind_spec f (fun _ => false) (fun _ => rfl) held (some t0) env0
+      simp only
+      generalize unwind f (fun _ => false) held { exc := some t0 } env0 = U at u1 u2 ⊢
+      obtain ⟨evx, fl, env2⟩ := U
+      simp only at u1 u2
+      refine ⟨?_, ?_⟩
+      · intro ev frs env1 h
+        simp at h
+      · intro ev t env1 h
+        simp only [Prod.mk.injEq, Except.error.injEq] at h
+        obtain ⟨rfl, rfl, rfl⟩ := h
+        have hns : noSleep (ev0 ++ evx) = noSleep ev0 ++ held.map Frame.ev := by
+          rw [noSleep_append, u1, noSleep_frames]
+        refine ⟨?_, ?_, ?_⟩
+        · rw [hns, h1, hexp, List.append_assoc]
+        · simp only [List.flatMap_cons, List.any_append, h2, Bool.true_or]
+        · rw [hns, lastRaised_append, ← h3, ← u2]
+          cases fl.raised <;> rfl
+    | ok fr =>
+      obtain ⟨h1, h2, h3⟩ := enterStep_ok f delay s env env0 ev0 fr hs
+      obtain ⟨iok, ierr⟩ := enterUnit_spec f delay rest (fr.toList ++ held) env0
+      simp only
+      generalize enterUnit f delay rest (fr.toList ++ held) env0 = R at iok ierr ⊢
+      obtain ⟨evs, r, env2⟩ := R
+      simp only
+      refine ⟨?_, ?_⟩
+      · intro ev frs env1 h
+        simp only [Prod.mk.injEq] at h
+        obtain ⟨rfl, rfl, rfl⟩ := h
+        obtain ⟨a1, a2, a3⟩ := iok evs frs env2 rfl
+        refine ⟨?_, ?_, ?_⟩
+        · rw [noSleep_append, h1, a1, List.flatMap_cons]
+        · intro e he
+          rw [List.flatMap_cons] at he
+          rcases List.mem_append.mp he with he | he
+          · exact h2 e he
+          · exact a2 e he
+        · rw [a3, List.flatMap_cons, teardown_append, List.map_append, h3, List.append_assoc]
+      · intro ev t env1 h
+        simp only [Prod.mk.injEq] at h
+        obtain ⟨rfl, rfl, rfl⟩ := h
+        obtain ⟨a1, a2, a3⟩ := ierr evs t env2 rfl
+        have hexp : uptoFirst (raises f) ((s :: rest).flatMap beginEvs)
+            = beginEvs s ++ uptoFirst (raises f) (rest.flatMap beginEvs) := by
+          simp only [List.flatMap_cons]
+          exact uptoFirst_append_of_none h2
+        refine ⟨?_, ?_, ?_⟩
+        · rw [noSleep_append, h1, a1, hexp, teardown_append, List.map_append, h3]
+          simp only [List.append_assoc]
+        · simp only [List.flatMap_cons, List.any_append, a2, Bool.or_true]
+        · rw [noSleep_append, h1, lastRaised_append, lastRaised_of_none f _ _ h2]
+          exact a3
+
+/-- **Initialisation, by units.**  The units are entered in order up to the first that fails; the
+    begin callbacks that run are those of the started units, then those of the failing unit up to
+    the callback that raised, followed by the clean-up the failing unit does itself; what is
+    registered on the exit stack is exactly the tear-down of the started units; the exception is the
+    last one raised. -/
+theorem enterUnits_split (f : Faults) (delay : Nat) : ∀ (us : List (List Step)) (cx : List Frame) (env : Env),
+    noSleep (enterUnits f delay us cx env).1
+        = (splitInit f us).1 ++ ((splitInit f us).2 ++ teardown f (splitInit f us).2)
+      ∧ (enterUnits f delay us cx env).2.2.1.map Frame.ev
+          = teardown f (splitInit f us).1 ++ cx.map Frame.ev
+      ∧ (enterUnits f delay us cx env).2.1
+          = lastRaised f ((splitInit f us).2 ++ teardown f (splitInit f us).2) none
+      ∧ ((enterUnits f delay us cx env).2.1 = none → (splitInit f us).2 = [])
+      ∧ ((enterUnits f delay us cx env).2.1 ≠ none → (splitInit f us).2.any (raises f) = true)
+  | [], cx, env => by
+    simp [enterUnits, splitInit, noSleep, teardown, lastRaised]
+  | u :: rest, cx, env => by
+    unfold enterUnits
+    obtain ⟨uok, uerr⟩ := enterUnit_spec f delay u [] env
+    cases hs : enterUnit f delay u [] env with
     | mk ev R =>
     obtain ⟨res, env1⟩ := R
     cases res with
     | error t =>
-      obtain ⟨h1, h2, h3, h4, h5⟩ := enterStep_err f delay s env env1 ev t hs
-      have hexp : expectedInit (s :: rest) f = uptoFirst (raises f) (beginEvs s) := by
-        simp only [expectedInit, List.flatMap_cons]
-        exact uptoFirst_append_of_any h2
-      refine ⟨?_, ?_, ?_, ?_, ?_⟩
-      · simpa [hexp, h4] using h1
-      · simp [hexp, h5]
-      · simp only [hexp, h4]; rw [← h1]; exact h3
+      obtain ⟨h1, h2, h3⟩ := uerr ev t env1 hs
+      simp only [List.map_nil, List.append_nil] at h1
+      have hsp : splitInit f (u :: rest) = ([], uptoFirst (raises f) (u.flatMap beginEvs)) := by
+        simp [splitInit, h2]
+      simp only [hsp, List.nil_append]
+      refine ⟨h1, by simp [teardown], ?_, ?_, ?_⟩
+      · rw [← h1]; exact h3
       · intro h; simp at h
       · intro _
-        rw [hexp]
-        exact uptoFirst_all_not_of_any h2
-    | ok fr =>
-      obtain ⟨h1, h2, h3⟩ := enterStep_ok f delay s env env1 ev fr hs
-      obtain ⟨i1, i2, i3, i4, i5⟩ := enterSteps_split f delay rest (fr.toList ++ cx) env1
-      have hexp : expectedInit (s :: rest) f = beginEvs s ++ expectedInit rest f := by
-        simp only [expectedInit, List.flatMap_cons]
-        exact uptoFirst_append_of_none h2
-      obtain ⟨c1, c2⟩ := ownCleanup_append_of_none f (expectedInit rest f) h2
-      simp only
-      refine ⟨?_, ?_, ?_, ?_, ?_⟩
-      · rw [noSleep_append, h1, i1, hexp, c1, List.append_assoc]
-      · rw [i2, hexp, c2, List.map_append, h3, List.append_assoc]
-      · rw [i3, hexp, c1, List.append_assoc, lastRaised_append _ (beginEvs s), lastRaised_of_none f _ _ h2]
-      · intro h
-        intro e he
-        rw [hexp] at he
-        rcases List.mem_append.mp he with he | he
-        · exact h2 e he
-        · exact i4 h e he
-      · intro h
-        have := i5 h
-        rw [hexp, List.all_append, this, Bool.and_false]
+        have := uptoFirst_all_not_of_any h2
+        rw [List.all_eq_false] at this
+        obtain ⟨x, hx, hp⟩ := this
+        rw [List.any_eq_true]
+        exact ⟨x, hx, by simpa using hp⟩
+    | ok frs =>
+      obtain ⟨h1, h2, h3⟩ := uok ev frs env1 hs
+      simp only [List.map_nil, List.append_nil] at h3
+      obtain ⟨i1, i2, i3, i4, i5⟩ := enterUnits_split f delay rest (frs ++ cx) env1
+      have hany : (u.flatMap beginEvs).any (raises f) = false := by
+        rw [List.any_eq_false]
+        intro x hx
+        simp [h2 x hx]
+      have hsp : splitInit f (u :: rest)
+          = (u.flatMap beginEvs ++ (splitInit f rest).1, (splitInit f rest).2) := by
+        simp [splitInit, hany]
+      simp only [hsp]
+      refine ⟨?_, ?_, i3, i4, i5⟩
+      · rw [noSleep_append, h1, i1, List.append_assoc]
+      · rw [i2, teardown_append, List.map_append, h3, List.append_assoc]
+
+/-- **Initialisation.**  For every step list, fault assignment, stack and environment: the begin
+    callbacks that run are those of the steps in list order up to and including the first one that
+    raises, followed by the clean-up the failing unit does itself (the power-off of a failing
+    `poweron`, the exit of the lab-host clone of a failing `connect`); what is registered on the
+    exit stack is exactly the tear-down of the units that were started; the exception is the last
+    one raised. -/
+theorem enterSteps_split (f : Faults) (delay : Nat) (steps : List Step) (cx : List Frame) (env : Env) :
+    noSleep (enterSteps f delay steps cx env).1
+        = expectedInit steps f ++ ownCleanup f steps
+      ∧ (enterSteps f delay steps cx env).2.2.1.map Frame.ev
+          = stackTeardown f steps ++ cx.map Frame.ev
+      ∧ (enterSteps f delay steps cx env).2.1
+          = lastRaised f (expectedInit steps f ++ ownCleanup f steps) none
+      ∧ ((enterSteps f delay steps cx env).2.1 = none →
+          (∀ e ∈ expectedInit steps f, raises f e = false))
+      ∧ ((enterSteps f delay steps cx env).2.1 ≠ none →
+          (expectedInit steps f).all (fun e => !raises f e) = false) := by
+  obtain ⟨i1, i2, i3, i4, i5⟩ := enterUnits_split f delay (units steps) cx env
+  unfold enterSteps
+  rw [expectedInit_split]
+  unfold ownCleanup stackTeardown startedInit failedInit
+  refine ⟨by rw [i1, List.append_assoc], i2, ?_, ?_, ?_⟩
+  · rw [i3, List.append_assoc, lastRaised_append _ (splitInit f (units steps)).1,
+      lastRaised_of_none f _ _ (splitInit_started_none f _)]
+  · intro h e he
+    rw [i4 h, List.append_nil] at he
+    exact splitInit_started_none f _ e he
+  · intro h
+    have := i5 h
+    rw [List.any_eq_true] at this
+    obtain ⟨x, hx, hp⟩ := this
+    rw [List.all_eq_false]
+    exact ⟨x, List.mem_append_right _ hx, by simp [hp]⟩
 
 /-- the same in the form it had before handling steps were modelled: some part `extra` of the
     tear-down owed has already run, the rest is registered -/
@@ -252,10 +363,10 @@ theorem enterSteps_spec (f : Faults) (delay : Nat) (steps : List Step) (cx : Lis
       ∧ ((enterSteps f delay steps cx env).2.1 ≠ none →
           (expectedInit steps f).all (fun e => !raises f e) = false) := by
   obtain ⟨i1, i2, i3, i4, i5⟩ := enterSteps_split f delay steps cx env
-  refine ⟨ownCleanup f (expectedInit steps f), i1, ?_, i3, ?_, i5⟩
+  refine ⟨ownCleanup f steps, i1, ?_, i3, ?_, i5⟩
   · rw [i2, teardown_split, List.append_assoc]
   · intro h
-    exact ⟨i4 h, (ownCleanup_of_none f (i4 h)).1⟩
+    exact ⟨i4 h, (ownCleanup_of_none steps f (i4 h)).1⟩
 
 theorem propagate_silent (f : Faults) (H : Handles) : ∀ (d : Nat) (t : Tag) (m : Mach), m.rc = d + 1 →
     propagate f H d t m = ([], t, { m with rc := 1 })
@@ -351,8 +462,8 @@ theorem machEnter_fresh_handling (f : Faults) (H : Handles) (delay : Nat) (steps
         noSleep (machEnter f H delay steps m).1 = expectedInit steps f ++ teardown f (expectedInit steps f)
         ∧ (expectedInit steps f).all (fun e => !raises f e) = false
         ∧ (machEnter f H delay steps m).2.1
-            = (pendingFault f H (stackTeardown f (expectedInit steps f)) none).or
-                (lastRaised f (expectedInit steps f ++ ownCleanup f (expectedInit steps f)) none)
+            = (pendingFault f H (stackTeardown f steps) none).or
+                (lastRaised f (expectedInit steps f ++ ownCleanup f steps) none)
         ∧ (machEnter f H delay steps m).2.2.rc = 0 ∧ (machEnter f H delay steps m).2.2.cx = []) := by
   obtain ⟨i1, i2, i3, i4, i5⟩ := enterSteps_split f delay steps [] m.env
   unfold machEnter
@@ -364,7 +475,7 @@ theorem machEnter_fresh_handling (f : Faults) (H : Handles) (delay : Nat) (steps
   cases r with
   | none =>
     have a := i4 rfl
-    obtain ⟨b1, b2⟩ := ownCleanup_of_none f a
+    obtain ⟨b1, b2⟩ := ownCleanup_of_none steps f a
     rw [b1, List.append_nil] at i1
     rw [b2] at i2
     refine ⟨fun _ => ⟨i1, a, by simp [h], i2⟩, fun hne => absurd rfl hne⟩
@@ -428,7 +539,7 @@ theorem session_spec_handling (delay : Nat) (steps : List Step) (s : Session) (m
     obtain ⟨o1, o2, o3, o4⟩ := hok rfl
     have hall : (expectedInit steps s.f).all (fun e => !raises s.f e) = true :=
       (all_not_raises_iff _ _).mpr o2
-    obtain ⟨b1, b2⟩ := ownCleanup_of_none s.f o2
+    obtain ⟨b1, b2⟩ := ownCleanup_of_none steps s.f o2
     simp only
     rw [runBody_spec s.f (handlesOf steps) delay steps s.body 0 m1 (by simp [o3]) hb]
     simp only
@@ -549,7 +660,7 @@ theorem exc_iff_raised_handling (delay : Nat) (steps : List Step) (s : Session) 
   exact And.comm
 
 theorem mem_stackTeardown {steps : List Step} {f : Faults} {e : Ev}
-    (h : e ∈ stackTeardown f (expectedInit steps f)) : e ∈ teardown f (expectedInit steps f) := by
+    (h : e ∈ stackTeardown f steps) : e ∈ teardown f (expectedInit steps f) := by
   rw [teardown_split]; exact List.mem_append_right _ h
 
 theorem mem_ownTrace {steps : List Step} {f : Faults} {body : List Op} {e : Ev}
